@@ -3,6 +3,7 @@ package main
 import (
 	"bytes"
 	"fmt"
+	"io"
 	"os"
 	"os/exec"
 	"path/filepath"
@@ -751,6 +752,48 @@ func init() {
 }
 
 // runCLIDevFull runs the binary with stdout connected to /dev/full
+// runCLISlow: the binary's standard output is a pipe whose reader only starts after `delay` (a pager, a compressor, a
+// parent that waits first): everything the command wrote must still arrive, and the exit status must say so
+func runCLISlow(timeout, delay time.Duration, args ...string) (stdout string, code int, timedOut bool) {
+	cmd := exec.Command(opts.gobin, args...)
+	cmd.Stdin = strings.NewReader("")
+	cmd.Stderr = io.Discard
+	pipe, err := cmd.StdoutPipe()
+	if err != nil {
+		return "", -1, false
+	}
+	if err := cmd.Start(); err != nil {
+		return "", -1, false
+	}
+	done := make(chan struct{})
+	var out []byte
+	go func() {
+		time.Sleep(delay)
+		buf := make([]byte, 4096)
+		for {
+			n, e := pipe.Read(buf)
+			out = append(out, buf[:n]...)
+			if e != nil {
+				break
+			}
+			time.Sleep(2 * time.Millisecond)
+		}
+		close(done)
+	}()
+	timer := time.AfterFunc(timeout, func() { timedOut = true; cmd.Process.Kill() })
+	<-done
+	werr := cmd.Wait()
+	timer.Stop()
+	code = 0
+	if werr != nil {
+		code = 1
+		if ee, ok := werr.(*exec.ExitError); ok {
+			code = ee.ExitCode()
+		}
+	}
+	return string(out), code, timedOut
+}
+
 func runCLIDevFull(timeout time.Duration, args ...string) (code int, timedOut bool) {
 	cmd := exec.Command(opts.gobin, args...)
 	full, err := os.OpenFile("/dev/full", os.O_WRONLY, 0)
